@@ -71,3 +71,41 @@ func Length(r *rand.Rand, max int) int {
 	}
 	return r.IntN(max + 1)
 }
+
+// Shaped inputs: strings a convenience layer might be tempted to interpret instead of taking
+// literally (hash spellings handed over as passwords, qualified logon names, ...). Every one of
+// them is an ordinary member of the input domain of the functions that take a password, a user
+// name or a domain name.
+const hexNT = "31d6cfe0d16ae931b73c59d7e0c089c0"
+const hexLM = "aad3b435b51404eeaad3b435b51404ee"
+
+func ShapedSecrets() []string {
+	return []string{
+		hexNT, "31D6CFE0D16AE931B73C59D7E0C089C0", "0123456789abcdef0123456789ABCDEF",
+		hexLM + ":" + hexNT, ":" + hexNT, hexNT + ":", hexLM + ":" + hexNT + ":::",
+		"$NT$" + hexNT, "0x" + hexNT, "{hex}" + hexNT, "hex:" + hexNT, "#" + hexNT,
+		"0123456789abcdef", hexNT + hexNT, hexNT[:31], hexNT + "0", hexNT[:31] + "g",
+		"MDEyMzQ1Njc4OWFiY2RlZg==", "base64:cGFzc3dvcmQ=", "{SSHA}abc", "$1$salt$hash", "$6$x$y",
+		" password", "password ", "password\n", "password\r\n", "\tpw", "pass\x00word", "\x00", "\x00abc",
+		"'quoted'", "\"quoted\"", "${PASSWORD}", "$(id)", "%s", "file:///etc/passwd", "@file", "-", "--password",
+		"null", "nil", "<nil>", "true", "0", "-1",
+	}
+}
+
+func ShapedUsers() []string {
+	return []string{
+		"CORP\\alice", "ЛАБ\\Ольга", "\\alice", "alice\\", "a\\b\\c", ".\\alice", "CORP/alice", "/alice",
+		"alice@corp.local", "alice@CORP", "@corp", "alice@", "a@b@c", "Ольга@лаб.рф",
+		"alice$", "MACHINE$", "alice:1000", "alice:", ":alice", "alice%secret", "alice;x", "alice,bob",
+		" alice", "alice ", "alice\n", "ali ce", "ali\x00ce", "'alice'", "\"alice\"",
+		"guest", "Guest", "anonymous", "ANONYMOUS LOGON", "null", "-", "*", "?", "S-1-5-21-1-2-3-500",
+		"cn=alice,dc=corp", hexNT,
+	}
+}
+
+func ShapedDomains() []string {
+	return []string{
+		"", ".", "..", "WORKGROUP", "workgroup", "corp.local", "CORP.LOCAL.", ".corp", "CORP\\", "\\CORP", "corp@", "@corp",
+		" ", "CORP ", " CORP", "BUILTIN", "NT AUTHORITY", "localhost", "127.0.0.1", "-", "*", "null",
+	}
+}
